@@ -115,7 +115,7 @@ func inlinable(fn *ssa.Function) bool {
 			}
 		}
 	}
-	return n < 400
+	return n < 3000 // straight-line code only; the unrolled simple8b packers have ~700 instructions
 }
 
 func (x *Exec) contractFor(fn *ssa.Function) *Contract {
